@@ -350,6 +350,19 @@ def _c18_agent(stream, res, impl):
                 if n_asked is not None and n_asked != max(want, 0):
                     return "target %d, the pool lists %d active peers: the agent asked for %s hosts, the shortfall is %d" % (
                         target, len(active), "no" if asked == "none" else n_asked, max(want, 0))
+            # whoever is un-trusted / disconnected is named by the key the node knows it under (the enode key of a
+            # local peer) or by what the pool declared invalid - never by another field of the peer's description
+            if kv.get("update") == "ok" and kv.get("L") is not None:
+                known = set()
+                for e in kv.get("L", "").split(";"):
+                    f = e.split("|")
+                    if len(f) == 4:
+                        known.update([f[0], f[3]])
+                known.update(x if x != "~" else "" for x in kv.get("I", "").split(";") if x)
+                for c_ in calls:
+                    if c_[:3] in ("rm:", "dc:") and c_[3:] not in known and ("" if c_[3:] == "~" else c_[3:]) not in known:
+                        return "the agent asked its node to drop `%s`, which is neither the key of one of its peers (%s) nor an id the pool declared invalid" % (
+                            c_[3:], ",".join(sorted(x for x in known if x)))
             if kv.get("update") != "ok" and (calls or okv.get("peer") != "none"):
                 return "failed keep-alive but the agent acted on the node: %s" % out[:200]
             if kv.get("update") == "ok" and not strict:
@@ -962,6 +975,21 @@ def _c19_advertised(stream, res, impl):
             kv, okv = _kv(op), _kv(out)
             if okv.get("id") != kv.get("id"):
                 return "a host authenticated as %s is advertised under the identity `%s` (override %s)" % (kv.get("id"), okv.get("id"), kv.get("raw"))
+            # an override of the plain form enode://[user@]host[:port][/...] whose host is a name, an IPv4 or a
+            # bracketed IPv6 literal other than the unspecified address: that host (and port) is what is advertised
+            try:
+                rawtxt = bytes.fromhex(kv.get("raw", "")).decode("utf-8", "strict")
+            except (ValueError, UnicodeDecodeError):
+                rawtxt = ""
+            mo = re.match(r"^enode://(?:[A-Za-z0-9]*@)?(\[[0-9a-fA-F:.]+(?:%25[A-Za-z0-9]+)?\]|[A-Za-z0-9.-]+)(?::(\d{1,5}))?(?:[/?#].*)?$", rawtxt)
+            if mo:
+                h = mo.group(1)
+                if h.startswith("["):
+                    h = h[1:-1].replace("%25", "%")
+                if h not in ("", "::") and okv.get("host") not in (None, h):
+                    return "host %s supplied the address %s (override %s) and is advertised at %s" % (kv.get("id"), h, rawtxt, okv.get("host"))
+                if h not in ("", "::") and mo.group(2) and okv.get("port") not in (None, str(int(mo.group(2)))):
+                    return "host %s supplied port %s (override %s) and is advertised with port %s" % (kv.get("id"), mo.group(2), rawtxt, okv.get("port"))
             port = okv.get("port", "")
             if okv.get("host", "~") in ("~", "") or not port.isdigit() or not (0 <= int(port) < 65536):
                 return "host %s is advertised at the undialable address %s:%s (override %s, source %s)" % (
